@@ -127,6 +127,14 @@ QInGrid(tab, q) == RLe(tab[1].x, q) /\ RLe(q, tab[Len(tab)].x)
 \* exact integral of the piecewise-linear interpolant (trapezoid sum)
 QTrapz(tab) == RSum([s \in 1..(Len(tab) - 1) |->
                    RMul(RSub(tab[s + 1].x, tab[s].x), RDiv(RAdd(tab[s].y, tab[s + 1].y), <<2, 1>>))])
+(* Scale covariance: the interpolant and its integral know no absolute scale.  With sx > 0 and sy any     *)
+(* rationals, the table (sx * x_i, sy * y_i) has interpolant sy * QInterp(tab, q) at sx * q and integral  *)
+(* sx * sy * QTrapz(tab) (QuadratureMC!TableLaws checks this on every small table).  The tabulated-data   *)
+(* integrator inherits it: its nodes are sx * (nodes on the unscaled range), its weights sx * W_i.  The   *)
+(* replay therefore transports every table to units 2^ex, 2^ey (|e| up to 60: powers of two keep the      *)
+(* binary values exact rationals) and judges the result by the transported sum and the transported exact  *)
+(* integral; a record d carries the UNSCALED table d.tab, d.val / d.exact are the projections back.       *)
+QScaleTab(tab, sx, sy) == [i \in 1..Len(tab) |-> [x |-> RMul(sx, tab[i].x), y |-> RMul(sy, tab[i].y)]]
 QIsLinear(tab) == \A s \in 2..(Len(tab) - 1) : QInterp(<<tab[1], tab[Len(tab)]>>, tab[s].x) = tab[s].y
 
 \* ---- acceptance of an observed rule ---------------------------------------------------
